@@ -56,7 +56,7 @@ class Gen:
                 st.append(S('net', dir='g2c', i=rng.randrange(4), act=rng.choice(['deliver', 'deliver', 'deliver', 'lose', 'dup'])))
             elif c < 0.78:
                 st.append(S('inject', svc='TunnelRes', ch=rng.choice(['own', 'own', 'other']), rel=rng.choice([-2, -1, 0, 0, 1]),
-                            st=rng.choice([0, 0, 0, 0x29, 0x21])))
+                            st=rng.choice([0, 0, 0, 0x29, 0x21, rng.randrange(1, 256)])))   # (every status code, also unassigned ones)
             elif c < 0.93:
                 st.append(S('adv', d=odd(rng, rng.choice([R // 2, R, R, 2 * R, T // 2]))))
             else:
@@ -149,6 +149,22 @@ class Gen:
         st += [S('send', g=1, p=self.newpid()), S('net', dir='c2g', svc='TunnelReq', i=0, act='lose'), S('adv', d=odd(rng, R // 2))]
         st += [S('net', dir='c2g', svc='TunnelReq', i=0, act='lose'), S('adv', d=odd(rng, T)), S('flush', n=2), S('adv', d=odd(rng, T))]
         return dict(run=run, cfg=dict(R=R, T=T, H=BIGH), steps=st, tag='ack-once')
+
+    def ack_status(self, run, status):
+        """C03: a matching acknowledgement with error status `status` (every code 1..255, assigned or not) makes that Send fail -
+        and nothing else: the gateway's own (late) OK acknowledgement for the same number is ignored, the next Send uses the next
+        number and succeeds."""
+        rng = self.rng
+        R, T = rng.choice(CFGS_ST)
+        st = [S('connect')]
+        for _ in range(rng.choice([0, 1, 2])):
+            st += clean_send(self.newpid())
+        st += [S('send', g=1, p=self.newpid()), S('net', dir='c2g', svc='TunnelReq', i=0, act='deliver'),
+               S('inject', svc='TunnelRes', ch='own', rel=0, st=status), S('flush', n=2),
+               S('net', dir='g2c', svc='TunnelRes', i=0, act='deliver'), S('flush', n=2)]
+        st += clean_send(self.newpid())
+        st += [S('flush', n=2), S('adv', d=odd(rng, T))]
+        return dict(run=run, cfg=dict(R=R, T=T, H=BIGH), steps=st, tag='ack-status')
 
     def tele_across_reconnect(self, run):
         """C05 (gateway -> client): telegrams before and after a reconnect the library performs by itself; every telegram the
@@ -248,7 +264,8 @@ class Gen:
                 st.append(S('gwpolicy', s='hb', act=rng.choice(['ok', 'ok', 'silent', 'err', 'foreign']),
                             st=rng.choice([0x21, 0x26, 0x27, 0x29, 0xff])))
             elif c < 0.58:
-                st.append(S('gwpolicy', s='conn', act=rng.choice(['ok', 'ok', 'ok', 'busy', 'refuse', 'silent'])))
+                # (a refusal carries any status code, assigned or not)
+                st.append(S('gwpolicy', s='conn', act=rng.choice(['ok', 'ok', 'ok', 'busy', 'refuse', 'silent']), st=rng.choice([0, 0x22, 0x23, rng.randrange(1, 256)])))
             elif c < 0.63:
                 st.append(S('gwpolicy', s='nextchan', n=rng.choice([1, 2, 3, 1, 0, 255])))
             elif c < 0.70:
